@@ -77,7 +77,7 @@ def gen(rng, i, tier):
         srcs = [c for c in spec["comps"] if c["kind"] == "Source"]
         if not any(c.get("rail") for c in srcs):
             rng.choice(srcs)["rail"] = "Vbatt rail"
-    return {"spec": spec, "seed": rng.randrange(1 << 40), "model": rng.choice(["linear", "sag", "impedance", "noisy"]),
+    return {"spec": spec, "seed": rng.randrange(1 << 40), "model": rng.choice(["linear", "sag", "impedance", "noisy", "plateau", "plateau"]),
             "steps": rng.choice([1, 4, 7, 15, 40]), "end": rng.choice(["capacity", "cutoff", "already_below", "capacity"]),
             "history": ["fresh", "identity_change_comp", "index_gaps", "solve_then_move_leaf"][i % 4], "by_rail": i % 3 != 0,
             "earlier_run": i % 5 in (1, 3), "declared_zero": i % 6 == 2}
@@ -130,6 +130,10 @@ def run(ctx, case):
             v = v0 * (1.0 - 0.25 * k / steps)
         elif model == "impedance":
             r = r0 * (1.0 + 0.5 * k)
+        elif model == "plateau":
+            # look-up-table battery: voltage and impedance stay put for several steps, then jump
+            v = v0 * (1.0 - 0.06 * (k // 5))
+            r = r0 * (1.0 + 0.8 * (k // 4))
         elif model == "noisy":
             v = v0 * (1.0 - 0.05 * ((k * 7919) % 5) / 5.0)
             r = r0 * (1.0 + 0.3 * ((k * 104729) % 3))
